@@ -88,9 +88,10 @@ def _check_cycle(case, root, ic, acc):
 def _nontrivial(case, rdoc, rc):
   area = case["area"]
   if area in ("time", "expr", "set", "regiontime"):
-    snaps = {R.snapshot(rc, t) for t in R.probe_times(rc)}
-    shows = any(s != ((), None) for s in snaps)
-    n = len(snaps)
+    # number of distinct snapshots over time, bounded below by the breakpoints of the reference tree
+    bps = R.breakpoints(rc)
+    shows = rc["body"] is not None or bool(rc["regions"])
+    n = len(bps) + (1 if bps and bps[0] > 0 else 0)
     return (n >= 2 and shows), ("never-active" if not shows else "static" if n < 2 else f"changing{min(n, 6)}")
   if area == "param":
     p = rc["params"]
@@ -105,6 +106,12 @@ def _nontrivial(case, rdoc, rc):
   return rc["body"] is not None, "content" if rc["body"] is not None else "empty"
 
 
+_XML_LANG = R.q(R.NS_XML, "lang")
+_XML_ID = R.q(R.NS_XML, "id")
+_KEEP_ATTRS = {"region", "style", _XML_ID}
+_KEEP_TAGS = {R.q(R.NS_TT, t) for t in ("head", "styling", "layout", "body")}
+
+
 def shrink_doc(case):
   """one-step reductions of the XML: drop an attribute, drop an element (with its tail text), drop a text"""
   try:
@@ -115,11 +122,15 @@ def shrink_doc(case):
   for idx in range(n_el):
     base = list(root.iter())[idx]
     for a in list(base.attrib):
+      if a in _KEEP_ATTRS or (a == _XML_LANG and case.get("area") in core.TIMED_AREAS):
+        continue
       r2 = ET.fromstring(case["xml"])
       e2 = list(r2.iter())[idx]
       del e2.attrib[a]
       yield dict(case, xml=_ser(r2))
     for ci in range(len(base)):
+      if base[ci].tag in _KEEP_TAGS or _XML_ID in base[ci].attrib:
+        continue
       r2 = ET.fromstring(case["xml"])
       e2 = list(r2.iter())[idx]
       del e2[ci]
@@ -205,15 +216,202 @@ def _family(name, n_decode, note, timeout=20.0, keyed=False):
   return Family(name, n, decode, check_doc, shrink=shrink_doc, timeout=timeout, note=note)
 
 
+def _intervals(canon):
+  """{xml:lang marker: (begin, end)} of the elements of a canonical timed tree (first occurrence wins)"""
+  out = {}
+
+  def rec(c):
+    if c is None or c[0] == "text":
+      return
+    out.setdefault(c[2] if c[1] != "region" else c[4], (c[7], c[8]))
+    for k in c[9]:
+      rec(k)
+  for r in canon["regions"]:
+    rec(r)
+  rec(canon["body"])
+  return out
+
+
+def _ref(xml):
+  return R.canonical(R.interpret(ET.fromstring(xml)))
+
+
 def gates():
-  return {"hand_examples": 0}
+  """(a) hand-computed TTML2/SMIL examples, (b) the repository's own pinned expectations, replayed through R_ttml"""
+  from fractions import Fraction as F
+  el, tt, head = core.el, core.tt, core.head
+  n_a = n_b = 0
+
+  def want_intervals(name, body, exp, attrs=None, hd=""):
+    nonlocal n_a
+    got = _intervals(_ref(tt(hd + body, attrs)))
+    exp = {k: (F(v[0]), None if v[1] is None else F(v[1])) for k, v in exp.items()}
+    if got != exp:
+      raise HarnessError(f"R_ttml gate (a) {name}: got {got}, hand-computed {exp}")
+    n_a += 1
+
+  L = lambda m, **a: dict({"xml:lang": m}, **a)
+  # G1 par: offsets relative to the parent's begin; implicit end of an offset container = latest child end
+  want_intervals("par-offsets", el("body", L("b"), [el("div", L("d", begin="1s"), [el("p", L("p", begin="1s", end="3s"), ["x"])])]),
+                 {"b": (0, 4), "d": (1, 4), "p": (2, 4)})
+  # G2/G3 seq: each child is relative to the end of its predecessor, begin AND end
+  want_intervals("seq-dur", el("body", L("b"), [el("div", L("d", timeContainer="seq"), [el("p", L("p1", dur="2s"), ["x"]), el("p", L("p2", dur="3s"), ["y"])])]),
+                 {"b": (0, 5), "d": (0, 5), "p1": (0, 2), "p2": (2, 5)})
+  want_intervals("seq-begin-end", el("body", L("b"), [el("div", L("d", timeContainer="seq"), [el("p", L("p1", begin="1s", dur="2s"), ["x"]),
+                                                                                                   el("p", L("p2", begin="1s", end="3s"), ["y"])])]),
+                 {"b": (0, 6), "d": (0, 6), "p1": (1, 3), "p2": (4, 6)})
+  want_intervals("seq-10-20", el("body", L("b"), [el("div", L("d", timeContainer="seq"), [el("p", L("p1", dur="10s"), ["x"]), el("p", L("p2", dur="10s"), ["y"])])]),
+                 {"b": (0, 20), "d": (0, 20), "p1": (0, 10), "p2": (10, 20)})
+  # G4 active end = min(begin + dur, end)
+  want_intervals("dur-end-min", el("body", L("b"), [el("div", L("d"), [el("p", L("p1", begin="1s", dur="2s", end="10s"), ["x"]),
+                                                                        el("p", L("p2", begin="1s", dur="20s", end="3s"), ["y"])])]),
+                 {"b": (0, 3), "d": (0, 3), "p1": (1, 3), "p2": (1, 3)})
+  # G5 an indefinite child of a seq: the next one never begins
+  want_intervals("seq-indefinite", el("body", L("b"), [el("div", L("d"), [el("p", L("p", timeContainer="seq"), [el("span", L("s1"), ["a"]), el("span", L("s2"), ["b"])])])]),
+                 {"b": (0, None), "d": (0, None), "p": (0, None), "s1": (0, None)})
+  # G6 an anonymous span in a seq has zero duration
+  c = _ref(tt(el("body", L("b"), [el("div", L("d"), [el("p", L("p", timeContainer="seq"), ["x", el("span", L("s", dur="1s"), ["y"])])])])))
+  if _intervals(c) != {"b": (F(0), F(1)), "d": (F(0), F(1)), "p": (F(0), F(1)), "s": (F(0), F(1))} or "'x'" in repr(R.snapshot(c, F(1, 2))):
+    raise HarnessError("R_ttml gate (a) anonymous span in seq")
+  n_a += 1
+  # G7 set: relative to the begin of the animated element
+  c = _ref(tt(el("body", L("b"), [el("div", L("d"), [el("p", L("p", begin="1s"), [el("set", {"begin": "1s", "dur": "2s", "tts:color": "red"}), "x"])])])))
+  for t, red in ((F(3, 2), False), (F(2), True), (F(39, 10), True), (F(4), False)):
+    if ("Color" in repr(R.snapshot(c, t))) != red:
+      raise HarnessError(f"R_ttml gate (a) set at t={t}")
+  n_a += 1
+  # G8 clipping by the parent; G12 accumulated offsets; G11 empty containers have zero implicit duration
+  want_intervals("clip", el("body", L("b"), [el("div", L("d", end="2s"), [el("p", L("p", end="5s"), ["x"])])]), {"b": (0, 2), "d": (0, 2), "p": (0, 2)})
+  want_intervals("nested-offsets", el("body", L("b", begin="1s"), [el("div", L("d", begin="1s"), [el("p", L("p", begin="1s", dur="1s"), ["x"])])]),
+                 {"b": (1, 4), "d": (2, 4), "p": (3, 4)})
+  want_intervals("empty", el("body", L("b"), [el("div", L("d"))]), {})
+  want_intervals("empty-sibling", el("body", L("b"), [el("div", L("d")), el("div", L("e", dur="2s"))]), {"b": (0, 2), "e": (0, 2)})
+  # G9 frames, frame rate multiplier, clock time with frames, ticks
+  P = "http://www.w3.org/ns/ttml#parameter"
+  want_intervals("frames-multiplier", el("body", L("b"), [el("div", L("d"), [el("p", L("p", end="24f"), ["x"])])]),
+                 {"b": (0, F(1001, 1000)), "d": (0, F(1001, 1000)), "p": (0, F(1001, 1000))}, {"ttp:frameRate": "24", "ttp:frameRateMultiplier": "1000 1001"})
+  want_intervals("clock-frames", el("body", L("b"), [el("div", L("d"), [el("p", L("p", begin="00:00:01:12", end="15000000t"), ["x"])])]),
+                 {"b": (0, F(3, 2)), "d": (0, F(3, 2)), "p": (F(37, 25), F(3, 2))}, {"ttp:frameRate": "25", "ttp:tickRate": "10000000"})
+  want_intervals("default-frame-rate-30", el("body", L("b"), [el("div", L("d"), [el("p", L("p", end="15f"), ["x"])])]),
+                 {"b": (0, F(1, 2)), "d": (0, F(1, 2)), "p": (0, F(1, 2))})
+  # G10 region timing; br in seq
+  want_intervals("region", el("body", L("b"), [el("div", L("d"), [el("p", L("p", region="r1", end="9s"), ["x"])])]),
+                 {"r1": (1, 3), "b": (0, 9), "d": (0, 9), "p": (0, 9)}, None, head("", el("region", {"xml:id": "r1", "begin": "1s", "end": "3s"})))
+  # styling: inline > nested > referential (later wins) > chained
+  st = el("style", {"xml:id": "a", "tts:color": "red", "tts:fontStyle": "italic"}) + el("style", {"xml:id": "b", "tts:color": "green", "style": "a"}) + \
+       el("style", {"xml:id": "c", "tts:color": "blue", "tts:fontWeight": "bold"})
+  c = _ref(tt(head(st, el("region", {"xml:id": "r1", "style": "b"}, [el("style", {"tts:color": "aqua"}), el("style", {"tts:color": "purple"})])) +
+              el("body", L("b"), [el("div", L("d"), [el("p", L("p1", style="b c"), ["x"]), el("p", L("p2", style="c b", **{"tts:fontWeight": "normal"}), ["y"])])])))
+  snap = R.snapshot(c, F(0))
+  p1, p2 = snap[1][5][0][5][0], snap[1][5][0][5][1]
+  if dict(p1[4]) != {"Color": ("C", 0, 0, 255, 255), "FontStyle": ("E", "italic"), "FontWeight": ("E", "bold")} or \
+     dict(p2[4]) != {"Color": ("C", 0, 128, 0, 255), "FontStyle": ("E", "italic"), "FontWeight": ("E", "normal")} or \
+     dict(snap[0][0][4]) != {"Color": ("C", 128, 0, 128, 255), "FontStyle": ("E", "italic")}:
+    raise HarnessError(f"R_ttml gate (a) style precedence: {p1[4]} {p2[4]} {snap[0][0][4]}")
+  n_a += 1
+
+  # ---- (b) the repository's own pinned expectations
+  import importlib
+  import os
+  import sys
+  tdir = os.path.join(env.REPO, "src", "test", "python")
+  sys.path.insert(0, tdir)
+  try:
+    # time expressions (effective rate 24000/1001 = 24 x 1000/1001, tick rate 60)
+    m = importlib.import_module("test_imsc_time_expressions")
+    for expr, _eff, tick, exp in m.IMSCTimeExpressionsTest.tests:
+      got = R.parse_time(expr, 24, F(1000, 1001), F(tick))
+      if got != exp:
+        raise HarnessError(f"R_ttml gate (b) time expression {expr}: {got} != {exp}")
+      n_b += 1
+    for bad, fr in (("100:00:00:100", 24), ("100:00:00;01", 24)):
+      try:
+        R.parse_time(bad, fr, F(1), F(60))
+        raise HarnessError(f"R_ttml gate (b): {bad} accepted")
+      except R.Malformed:
+        n_b += 1
+    m = importlib.import_module("test_imsc_color_parser")
+    for txt, exp in m.IMSCReaderTest.tests:
+      if R.p_color(txt) != ("C",) + tuple(exp.components):
+        raise HarnessError(f"R_ttml gate (b) colour {txt}")
+      n_b += 1
+    try:
+      R.p_color("#red")
+      raise HarnessError("R_ttml gate (b): #red accepted")
+    except R.Malformed:
+      n_b += 1
+    m = importlib.import_module("test_imsc_font_families_parser")
+    for txt, exp in m.IMSCReaderTest._parse_tests:  # pylint: disable=protected-access
+      want = tuple(x if isinstance(x, str) else ("E", "monospaceSerif" if x.value == "default" else x.value) for x in exp)
+      if R.p_font_family(txt) != ("ff", want):
+        raise HarnessError(f"R_ttml gate (b) font family {txt}: {R.p_font_family(txt)}")
+      n_b += 1
+    m = importlib.import_module("test_imsc_position_parser")
+    for txt, (he, ho, ve, vo) in m.IMSCPositionTest.tests:
+      want = ("pos", ("L", ho.value, ho.units.value), ("L", vo.value, vo.units.value), he, ve)
+      if R.p_position(txt) != want:
+        raise HarnessError(f"R_ttml gate (b) position {txt!r}: {R.p_position(txt)} != {want}")
+      n_b += 1
+    for txt, st, pos in (("dot after", "filled_dot", "after"), ("dot before", "filled_dot", "before"), ("filled after", "filled_circle", "after"),
+                         ("open before", "open_circle", "before")):      # test_imsc_reader.test_text_emphasis
+      v = R.p_text_emphasis(txt)
+      if v[1] != st or v[3] != pos:
+        raise HarnessError(f"R_ttml gate (b) text emphasis {txt}")
+      n_b += 1
+  finally:
+    sys.path.remove(tdir)
+  res = os.path.join(env.RES, "ttml")
+  f = os.path.join(res, "referential_styling.ttml")          # test_imsc_reader.test_referential_styling
+  if os.path.exists(f):
+    c = R.canonical(R.interpret(ET.parse(f).getroot()))
+    snap = R.snapshot(c, F(0))
+    col = lambda n, p: dict(n[4]).get(p)
+    green, blue, black, yellow, red = (("C", 0, 128, 0, 255), ("C", 0, 0, 255, 255), ("C", 0, 0, 0, 255), ("C", 255, 255, 0, 255), ("C", 255, 0, 0, 255))
+    divs, regs = snap[1][5], snap[0]
+    exp = [(divs[0], "Color", green), (divs[0], "BackgroundColor", blue), (divs[1], "Color", black), (divs[1], "BackgroundColor", blue),
+           (regs[0], "Color", blue), (regs[0], "BackgroundColor", yellow), (regs[1], "Color", red), (regs[1], "BackgroundColor", yellow)]
+    for node, p, v in exp:
+      if col(node, p) != v:
+        raise HarnessError(f"R_ttml gate (b) referential_styling.ttml: {node[0]} {p} = {col(node, p)}, the repository's test asserts {v}")
+      n_b += 1
+  f = os.path.join(res, "body_only.ttml")                     # test_cell_resolution style literal; the file must simply be readable
+  if os.path.exists(f):
+    rd = R.interpret(ET.parse(f).getroot())
+    if rd.cell != (38, 12) or rd.body.styles.get("LineHeight") != ("L", 25.0, "%") or rd.body.region != "r1" or len(rd.regions) != 1:
+      raise HarnessError("R_ttml gate (b) body_only.ttml")
+    n_b += 1
+  if _ref('<tt xml:lang="en" xmlns="http://www.w3.org/ns/ttml" xmlns:ttp="http://www.w3.org/ns/ttml#parameter" ttp:cellResolution="32 15"/>')["params"]["cell"] != (32, 15):
+    raise HarnessError("R_ttml gate (b) test_cell_resolution")
+  n_b += 1
+  # test_isd_lwsp: the words of every text run, in order, and the xml:space of the run (white-space collapsing itself is C13's)
+  for fn, exp in (("lwsp_default.ttml", [["hello", "my name", "is Mathilda"], ["bonjour", "mon nom", "<br>", "est"]]),
+                  ("lwsp_preserve.ttml", [["hello", "my name", "is Mathilda"]])):
+    f = os.path.join(res, fn)
+    if not os.path.exists(f):
+      continue
+    c = R.canonical(R.interpret(ET.parse(f).getroot()))
+    snap = R.snapshot(c, F(0))
+    got = []
+    for p in snap[1][5][0][5]:
+      runs = []
+      for k in p[5]:
+        runs.append("<br>" if k[0] == "br" else " ".join(" ".join(x[1] for x in k[5] if x[0] == "text").split()))
+      got.append([r for r in runs if r])          # runs of white space only are dropped by the ISD stage the test looks at
+    if got != exp:
+      raise HarnessError(f"R_ttml gate (b) {fn}: {got} != {exp}")
+    if fn == "lwsp_preserve.ttml":
+      sp = snap[1][5][0][5][0][5][1]
+      if sp[2] != "preserve" or sp[5][0][1] != " my \nname ":
+        raise HarnessError("R_ttml gate (b) lwsp_preserve.ttml preserve span")
+    n_b += 1
+  return {"hand_examples": n_a, "repo_pinned_expectations": n_b}
 
 
 def plan(tier, seed):
   fams = []
   if tier == "quick":
-    fams.append(_family("F-time[<=4,full]", fam.fam_time((1, 2, 3, 4), True, False),
-                        "all trees <= 4 elements x {par,seq} x begin{-,1s} x dur{-,2s} x end{-,3s} on every node"))
+    fams.append(_family("F-time[<=4,full]", fam.fam_time((1, 2, 3, 4), True, False, body_reduced_from=4),
+                        "all trees <= 4 elements x {par,seq} x begin{-,1s} x dur{-,2s} x end{-,3s} on every node (body of 4-element trees: {-,begin,end,begin+dur})"))
     fams.append(_family("F-time[5,reduced]", fam.fam_time((5,), False, False, True),
                         "all trees of 5 elements, body untimed, per node {par,seq} x {-,begin,end,begin+dur}"))
   else:
